@@ -385,6 +385,15 @@ func (vc *VC) instantiatedQuery(mark int, goal Term, sliced bool, lean bool) (st
 							out = append(out, sk)
 							if len(vars) == 1 {
 								out = append(out, plusSx(sk, 1), plusSx(sk, -1))
+								// offsets of the skolem that occur in the goal (sk - base)
+								nadd := 0
+								for _, t := range skTerms[sk.atom] {
+									if ts := t.String(); !have[ts] && nadd < 4 {
+										have[ts] = true
+										nadd++
+										out = append(out, t)
+									}
+								}
 							}
 						}
 					}
